@@ -212,7 +212,7 @@ func c17ConnVerdict(h *gwHarness, sc c17Scenario, srv *vrt.Conn, c int) string {
 		epoch := 0
 		for _, act := range script {
 			switch act {
-			case "event", "dataerrors", "event-changed":
+			case "event", "dataerrors", "event-changed", "event-fragmented":
 				if act == "event-changed" {
 					// the same entity again after the data of the services has changed
 					epoch++
@@ -240,6 +240,9 @@ func c17ConnVerdict(h *gwHarness, sc c17Scenario, srv *vrt.Conn, c int) string {
 				want = append(want, map[string]interface{}{"errors": "upstream says no"})
 			case "errorlist":
 				want = append(want, map[string]interface{}{"errors": "upstream list error"})
+			case "error":
+				// the error message of the protocol (one error object as payload): forwarded, then the operation is over
+				want = append(want, map[string]interface{}{"errors": "boom"})
 			}
 		}
 		g := got[id]
@@ -315,9 +318,12 @@ var c17Subs = []string{
 	"subscription { x: n1Changed { calc(x: 3) phone } }",
 }
 
+// a variable that is used two stitching levels below the event only (event at s0 -> owner at s1 -> calc at s0)
+const c17DeepVarSub = "subscription ($x: Int) { n1Changed { n2s { owner { calc(x: $x) } } } }"
+
 func c17Scenarios(tier string) []c17Scenario {
 	var out []c17Scenario
-	seqs := [][]upAction{{"event"}, {"event", "event"}, {"event", "quiet11s", "event"}, {"errorlist", "event"}, {"event", "errorlist", "event"}, {"errorpayload"}, {"event", "errorpayload"}, {"errorpayload", "event"}, {"event", "complete"}, {"event", "event", "complete"}, {"dataerrors"}, {"event", "dataerrors"}}
+	seqs := [][]upAction{{"event"}, {"event", "event"}, {"event-fragmented", "event"}, {"error"}, {"event", "error"}, {"event", "quiet11s", "event"}, {"errorlist", "event"}, {"event", "errorlist", "event"}, {"errorpayload"}, {"event", "errorpayload"}, {"errorpayload", "event"}, {"event", "complete"}, {"event", "event", "complete"}, {"dataerrors"}, {"event", "dataerrors"}}
 	if tier == "thorough" {
 		seqs = append(seqs, []upAction{"event", "event", "event"}, []upAction{"event", "errorpayload", "event"}, []upAction{"event", "error"}, []upAction{"event", "disconnect"})
 	}
@@ -346,6 +352,14 @@ func c17Scenarios(tier string) []c17Scenario {
 			vars: []map[string]interface{}{{"p": "en"}, {"p": "fr"}}, up: [][]upAction{s, s}, bound: b, planner: "plain"})
 		out = append(out, c17Scenario{world: "W0+subscription-roots+entity-scalar-arg-default", subs: []string{vq},
 			vars: []map[string]interface{}{{"p": "en"}}, up: [][]upAction{{"event", "event"}}, bound: 1, planner: "plain"})
+	}
+	// (what is forwarded does not hang on the schedule: default schedule and forced switches; thorough: one preemption)
+	dvb := 0
+	if tier == "thorough" {
+		dvb = 1
+	}
+	for _, pl := range []string{"plain", "cached"} {
+		out = append(out, c17Scenario{world: "W0+subscription-roots", subs: []string{c17DeepVarSub}, vars: []map[string]interface{}{{"x": 5}}, up: [][]upAction{{"event"}}, bound: dvb, planner: pl})
 	}
 	// the data of the other services changes between two events about the same entity: the second
 	// event is stitched with what the services answer then
@@ -391,7 +405,7 @@ func c17Scenarios(tier string) []c17Scenario {
 func init() {
 	Specs["C17"] = &Spec{
 		ID: "C17",
-		Rule: "scenario = (1-2 subscriptions on one connection (also two connections in sequence on one gateway) out of 9 subscription operations (one with a per-subscription variable for a field of another service) whose selection needs 0, 1 or 2 other services, lists, value types, aliases, __typename; upstream event history per subscription over {event, error payload, error message with a list payload, 11 s of silence, event with data and errors, complete, the previous event again after every value of the services' data has changed} " +
+		Rule: "scenario = (1-2 subscriptions on one connection (also two connections in sequence on one gateway) out of 9 subscription operations (one with a per-subscription variable for a field of another service) whose selection needs 0, 1 or 2 other services, lists, value types, aliases, __typename; upstream event history per subscription over {event, event sent as a fragmented websocket message, error payload, error message with an object payload (ends the operation) and with a list payload, 11 s of silence, event with data and errors, complete, the previous event again after every value of the services' data has changed} " +
 			"of length <=3; planner plain/cached); the real subscriptionHandler / subscriptionEntry / MultiOpQueryer.Subscribe (rewritten) run over scheduler-aware pipes against a gobwas upstream and evaluating in-memory services; " +
 			"every schedule with <=1 preemption (two subscriptions: bound 0 quick, 1 thorough) is executed; the client terminates once the system is idle; plus a slow reader (16-byte receive buffer, nothing read from 0 to 6.5 s while events arrive and the 4 s heartbeat comes due, terminate at 10 s); oracle at the client's frame parser: per subscription id the sequence of data payloads " +
 			"== reference evaluation of the client operation on each emitted event, in emission order, exactly once, helpers absent, never under another id, upstream error payloads arrive as errors; non-trivial = >1 execution",
